@@ -275,8 +275,8 @@ def _callee_name(e):
         r = e["receiver"]
         while isinstance(r, dict) and r.get("t") in ("Paren", "Reference"):
             r = r["expr"]
-        if _ident(r) == "self":
-            return e["method"]
+        if _ident(r) is not None:
+            return e["method"]      # `self.f(..)` or `x.f(..)` on a plain local
         return None
     if e.get("t") != "Call":
         return None
@@ -308,6 +308,11 @@ def _call_args(e, fn):
         if not has_recv:
             return None
         args = list(e["args"])
+        r = _strip_ref(e["receiver"])
+        if _ident(r) != "self":
+            # the receiver takes the place of `self` in the helper's body
+            ps = ["self"] + ps
+            args = [r] + args
     else:
         args = list(e["args"])
         if has_recv:
